@@ -11,6 +11,7 @@ import (
 	"github.com/goplus/llgo/internal/buildtags"
 	ienv "github.com/goplus/llgo/internal/env"
 	"github.com/goplus/llgo/internal/shellparse"
+	xenv "github.com/goplus/llgo/xtool/env"
 	"github.com/goplus/llgo/xtool/safesplit"
 )
 
@@ -43,7 +44,8 @@ func hexList(l []string) string {
 func handle(line string) (out string) {
 	defer func() {
 		if e := recover(); e != nil {
-			out = fmt.Sprintf("panic %v", e)
+			_ = e
+			out = "panic"
 		}
 	}()
 	f := strings.Fields(line)
@@ -99,9 +101,37 @@ func handle(line string) (out string) {
 			}
 		}
 		return "ok " + hx(ienv.ExpandEnvWithDefault(t, envs, d))
+	case f[0] == "xenv" && len(f) == 3:
+		t, ok := unhex(f[1])
+		if !ok {
+			return "bad-op"
+		}
+		for _, n := range envNames {
+			os.Unsetenv(n)
+		}
+		envNames = envNames[:0]
+		if f[2] != "." {
+			for _, kv := range strings.Split(f[2], ",") {
+				p := strings.Split(kv, "=")
+				if len(p) != 2 {
+					return "bad-op"
+				}
+				k, ok1 := unhex(p[0])
+				v, ok2 := unhex(p[1])
+				if !ok1 || !ok2 {
+					return "bad-op"
+				}
+				os.Setenv(k, v)
+				envNames = append(envNames, k)
+			}
+		}
+		r := xenv.ExpandEnv(t)
+		return "ok " + hx(r) + " | " + hexList(xenv.ExpandEnvToArgs(t))
 	}
 	return "bad-op"
 }
+
+var envNames []string
 
 func main() {
 	sc := bufio.NewScanner(os.Stdin)
